@@ -631,7 +631,7 @@ def _check(run, wd, mods, farm, t_start):
     items, by_base = [], defaultdict(list)
     for bi, g, c in scases:
         try:
-            flat, out = c10.run_impl(mods, c)
+            flat, out = c10.run_impl(mods, c)[:2]
         except Exception as e:  # noqa
             failures.append(("scheduler-crash", {"case": c, "error": f"{type(e).__name__}: {e}"}))
             continue
@@ -1123,7 +1123,7 @@ def replay(path: str) -> int:
         mods = common.import_impl()
         c = data["case"]
         c["groups"] = [[tuple(x) for x in g] for g in c["groups"]]
-        flat, out = c10.run_impl(mods, c)
+        flat, out = c10.run_impl(mods, c)[:2]
         print("impl schedule:", flat)
         print("model        :", c10.model_outputs(wd, c, flat, c10.py_splice(c["source"], flat)))
     elif kind == "proof":
